@@ -11,8 +11,8 @@ META = {
     "text": "AllocOpts.tla models one allocation call the way alloc_slow_inline / Space::acquire are "
             "written (obvious-OOM test, poll, get pages or fail, block only at a safepoint, retry, "
             "emergency collection, out_of_memory callback) and TLC checks the contract for all "
-            "option combinations x request classes x environment choices, with four mutants "
-            "(OOM before any collection, allow_oom_call ignored, blocking off a safepoint, "
+            "option combinations x request classes x environment choices, with five mutants "
+            "(OOM before any collection, allow_oom_call ignored, blocking off a safepoint, obvious-OOM test against the wrong bound, "
             "overcommit polling) that must be rejected. Conformance: under every plan the driver "
             "keeps 2/8..5/8 of a small heap alive and issues 13 request sizes (64 B .. usize::MAX, "
             "around the LOS threshold and the heap size) x 8 option combinations through "
@@ -22,7 +22,7 @@ META = {
             "'Overcommit does not block or fail' is required of requests <= heap/8 only (MMTk "
             "reserves 2 x heap of address space per space; larger overcommitted requests may "
             "physically fail). NoGC: only requests that cannot fill the heap (documented panic).",
-    "technique": "TLA+ spec (AllocOpts.tla) model-checked with TLC incl. 4 mutants; recorded "
+    "technique": "TLA+ spec (AllocOpts.tla) model-checked with TLC incl. 5 mutants; recorded "
                  "allocation calls of the real MMTk validated with TLC (Trace_AllocOpts.tla)",
 }
 PREFIXES = ("C10:",)
@@ -31,7 +31,8 @@ PREFIXES = ("C10:",)
 def run(ctx):
     ctx.tlc_mc("AllocOpts.tla", "MC_AllocOpts.cfg", spec_dir=SD, workers=2,
                require_actions=["ObviousOOM", "Success", "NeedGC", "AfterFailure"])
-    for m in ("oom_before_gc", "ignore_allow_oom", "block_no_safepoint", "overcommit_polls"):
+    for m in ("oom_before_gc", "ignore_allow_oom", "block_no_safepoint", "overcommit_polls",
+              "obvious_oom_wrong_bound"):
         ctx.tlc_mc("AllocOpts.tla", "MC_AllocOpts_mutant_%s.cfg" % m, spec_dir=SD, workers=2,
                    expect_violation=True)
     st = hc.execute(ctx, hc.oom_matrix(ctx.tier), PREFIXES,
